@@ -24,6 +24,7 @@ func runC12(w *core.World, r *core.Report) {
 	r.Rule("R1", "fs Put path: only CreateTemp(dir of record) / Write / Close / Rename(temp name, record) / Remove(temp); order Write,Close < Rename; success passes Rename; no other renamer/writer in db/fs")
 	r.Rule("R2", "engine: fallback Save only behind db.IsNotFound(load error); Load returns the store's error unchanged")
 	r.Rule("R3", "no directory-wide file operation under Put")
+	r.Rule("R7", "one snapshot per request: Persister.Save is called only by Finish and by the session attach path")
 	r.Rule("R6", "a failed open of a record is a miss only when the file does not exist; every other open failure reaches the caller")
 	r.Rule("R5", "atomic writer: the error of every Write, Sync and Close on the temporary file reaches a nil test that gates the rename")
 	r.Rule("R4", "the session snapshot is one record: Persister.Save performs exactly one Put, Load exactly one Get (no multi-step save)")
@@ -296,6 +297,13 @@ func runC12(w *core.World, r *core.Report) {
 	// ---- R5 -----------------------------------------------------------------------------------
 	checkWriteErrorsGateRename(w, r, "R5")
 	checkOpenErrorsClassified(w, r, "R6")
+	checkWhoMayCall(w, r, "R7", "Persister.Save is called only when a request ends (Finish) and when a new session is attached",
+		func(c ssa.CallInstruction) bool { return core.CallName(c) == "persist.(*Persister).Save" },
+		func(fn *ssa.Function) bool {
+			return fn.Name() == "Finish" || len(core.CallsTo(fn, "persist.(*Persister).Load")) > 0 || (fn.Parent() == nil && len(core.CallsTo(fn, "persist.(*Persister).Save")) > 0 && isFinishHelper(w, fn))
+		},
+		"in Finish (or its helper) and the session attach path",
+		"the session is also saved in the middle of a request: a crash after that save leaves a record that is neither the state before the request nor the state after it (atomic writes do not help: the bytes written are an intermediate state)", 2)
 }
 
 // addErrorEdgesOfReturns adds, for returns whose error operand is a phi, the incoming CFG edges on
